@@ -902,3 +902,104 @@ func sameVal(a, b ssa.Value) bool {
 	}
 	return Path(ra) == Path(rb)
 }
+
+// condSig renders a condition compactly for frozen signature tables: loop
+// counters and log plumbing are dropped, local-variable indirections resolved.
+func condSig(c Cond) string {
+	p := Path(c.V)
+	if strings.Contains(p, "phi[") && strings.Contains(p, "builtin.len(") && strings.Contains(p, " < ") {
+		return "" // rangeindex loop condition
+	}
+	if strings.HasPrefix(p, "next(range(") && strings.HasSuffix(p, "#0") {
+		return "" // map range loop condition
+	}
+	if !c.Pol {
+		return "!" + p
+	}
+	return p
+}
+
+// retSigs: one signature per return alternative of result idx: "<value> <= cond; cond".
+func retSigs(fn *ssa.Function, idx int) []string {
+	var out []string
+	for _, alt := range ReturnAlts(fn, idx) {
+		var cs []string
+		for _, c := range alt.Conds {
+			if s := condSig(c); s != "" {
+				cs = append(cs, s)
+			}
+		}
+		sort.Strings(cs)
+		out = append(out, Path(alt.Val)+" <= "+strings.Join(cs, " ; "))
+	}
+	sort.Strings(out)
+	return out
+}
+
+// normSig removes loop-counter noise: "[(phi[...] + 1)]" -> "[i]", any other "phi[...]" index chains collapse.
+func normSig(s string) string {
+	for {
+		i := strings.Index(s, "[(phi[")
+		if i < 0 {
+			break
+		}
+		depth, j := 0, i
+		for ; j < len(s); j++ {
+			if s[j] == '[' {
+				depth++
+			} else if s[j] == ']' {
+				depth--
+				if depth == 0 {
+					break
+				}
+			}
+		}
+		if j >= len(s) {
+			break
+		}
+		s = s[:i] + "[i]" + s[j+1:]
+	}
+	return s
+}
+
+// checkSigs compares the return-alternative signatures of result idx of fn
+// with a frozen, hand-reviewed table: a missing or additional way of
+// returning a value is reported with the signature itself.
+func checkSigs(r *Report, rule, key string, fn *ssa.Function, idx int, want []string) {
+	got := map[string]int{}
+	for _, s := range retSigs(fn, idx) {
+		got[normSig(s)]++
+	}
+	wantSet := map[string]bool{}
+	for _, s := range want {
+		wantSet[s] = true
+		if got[s] == 0 {
+			r.Fail(rule, key+"/missing:"+sigKey(s), fn.Pos(), "the function no longer returns [%s]", trunc(s, 400))
+		} else {
+			r.Hold(rule, key+"/"+sigKey(s), fn.Pos(), 1, "returns [%s]", trunc(s, 300))
+		}
+	}
+	var extra []string
+	for s := range got {
+		if !wantSet[s] {
+			extra = append(extra, s)
+		}
+	}
+	sort.Strings(extra)
+	for _, s := range extra {
+		r.Fail(rule, key+"/unexpected:"+sigKey(s), fn.Pos(), "new way of returning a result, not in the reviewed table: [%s]", trunc(s, 500))
+	}
+}
+
+func sigKey(s string) string {
+	// short stable key: value + hash of the conditions
+	h := uint32(2166136261)
+	for i := 0; i < len(s); i++ {
+		h = (h ^ uint32(s[i])) * 16777619
+	}
+	v := s
+	if i := strings.Index(s, " <= "); i >= 0 {
+		v = s[:i]
+	}
+	return fmt.Sprintf("%s#%08x", trunc(v, 40), h)
+}
